@@ -222,6 +222,21 @@ macro_rules! reject_impl {
             let fresh = format!("{:?}", $ty::<F>::new());
             let tstate = format!("{t:?}");
             ensure!(tstate == fresh || tstate == before, format!("C05/{which}/extend_state"), "after a failing extend the state {tstate} is neither unchanged nor the state of the valid prefix {before}");
+            // (2b) the same on a state that already holds observations: they must survive the failing extend
+            let mut h = $ty::<F>::new();
+            let prior: Vec<F> = vec![F::from64(2.0), F::from64(4.0), F::from64(0.5)];
+            StatisticsOps::extend(&mut h, &prior).map_err(|e| crate::engine::Fail { sig: format!("C05/{which}/rejects_positive_data"), msg: format!("{e:?}") })?;
+            let held = format!("{h:?}");
+            let r = guard(|| StatisticsOps::extend(&mut h, &full));
+            ensure!(matches!(r, Ok(Err(CIError::NonPositiveValue(_)))), format!("C05/{which}/extend_outcome"), "{which}::extend with {bad:?} at position {pos} on a state holding data = {r:?}");
+            let mut with_prefix = $ty::<F>::new();
+            StatisticsOps::extend(&mut with_prefix, &prior).unwrap();
+            for x in &valid[..pos] {
+                with_prefix.append(*x).unwrap();
+            }
+            let hstate = format!("{h:?}");
+            ensure!(hstate == held || hstate == format!("{with_prefix:?}"), format!("C05/{which}/extend_state"), "a failing extend on a state holding 3 observations left {hstate}; expected the state unchanged ({held}) or extended by the valid prefix");
+            ensure!(h.sample_count() >= 3, format!("C05/{which}/extend_state"), "a failing extend lost accumulated observations: count {}", h.sample_count());
             // (3) one-shot ci on such data returns that error
             let conf = stats_ci::Confidence::new(0.9);
             match call(|| $ty::<F>::ci(conf, &full)) {
